@@ -315,7 +315,7 @@ def rule_absent(E, R):
                 rb = S.resolve(root, fi[0].frame).bind or S.lookup(root, fi[0].frame)
                 present = rb is not None and (rb.kind == "closure-param" or (rb.kind == "pat" and rb.proj and rb.proj[0][:2] == ("v", "Option::Some")))
                 ok = ms_[:2] == ["iter", "unwrap"] and chain_verdict([y for y in ch if y["m"] != "unwrap"]) == "ok" and present and \
-                    any(norm(c_.get("callee", "")).endswith("Compare::compare") for c_ in exprs(fi[0].node, "MethodCall"))
+                    any(norm(c_.get("callee", "")).endswith("Compare::compare") for c_ in exprs_deep(fi[0].node, "MethodCall"))
             R.check(ok, rule, fn, "every element of the container is compared, in iteration order", where=clo["sp"])
     else:
         R.cannot(rule, fn, "anchor not found")
